@@ -79,8 +79,9 @@ def coq_closure(prop):
         for m in re.finditer(r"From\s+Copia\s+Require\s+(?:Import\s+|Export\s+)?(.*?)\.(?=\s|$)", src, re.S):
             for mod in m.group(1).split():
                 todo.append(mod.replace(".", "/") + ".v")
-        for m in re.finditer(r"^\s*Require\s+(?:Import\s+|Export\s+)?Copia\.([\w.]+?)\.(?=\s|$)", src, re.M):
-            todo.append(m.group(1).replace(".", "/") + ".v")
+        for m in re.finditer(r"^\s*Require\s+(?:Import\s+|Export\s+)?((?:Copia\.[\w.]+?\s+)*Copia\.[\w.]+?)\.(?=\s|$)", src, re.M):
+            for mod in m.group(1).split():
+                todo.append(mod[len("Copia."):].replace(".", "/") + ".v")
     return seen
 
 
